@@ -322,6 +322,29 @@ Section Run.
     - split; [destruct (eout e); auto|]. intros _. exists (b :: S), e. split; [exact Htr | exact Hc].
     - split; [auto | discriminate].
   Qed.
+  (* every call that is let through — wherever its quanta lie in the schedule, in particular between
+     two quanta of another transaction: a call made from inside that one's body — has a bracket of
+     its own: its own Begin and, if that succeeded, its own statements and its own end call, all on
+     its own connection; and it returns nil only if ITS commit succeeded *)
+  Lemma own_bracket_l : forall r, tst th = TDone r -> let_through sc = true ->
+    (exists b, tr = [b] /\ ecall b = CBegin /\ eout b <> OOk /\ rruns r = 0 /\
+               rret r = RetErr (EBegin (eval b))) \/
+    (exists b S e, tr = b :: S ++ [e] /\ ecall b = CBegin /\ eout b = OOk /\
+       Forall (fun x => ent_stmt x = true) S /\ ent_end e = true /\ rruns r = 1 /\
+       Forall (fun x => econn x = sconn sc) tr /\
+       (rret r = RetErr ENil -> ecall e = CCommit /\ eout e = OOk)).
+  Proof.
+    intros r Hst Hlt. pose proof th_inv as H. fold sc in H. rewrite Hst in H. cbn in H.
+    destruct H as [(_ & Hl & _) | [(b & Htr & Hb1 & Hb2 & _ & ->) | (b & S & e & o & Htr & [Hb1 Hb2] & HS & He & _ & Hr)]].
+    - congruence.
+    - left. exists b. cbn. auto.
+    - right. exists b, S, e. split; [exact Htr|]. split; [exact Hb1|]. split; [exact Hb2|].
+      split; [eapply stmts_forall; exact HS|]. split; [exact He|].
+      split; [destruct Hr as [[-> _] | [-> _]]; reflexivity|]. split; [exact th_conn|].
+      intros Hnil. destruct (nil_only_if_commit_succeeded_l r Hst Hnil) as (pre & e' & Htr' & Hc & Ho & _).
+      fold tr in Htr'. rewrite Htr in Htr'. change (b :: S ++ [e]) with ((b :: S) ++ [e]) in Htr'.
+      apply app_inj_tail in Htr'. destruct Htr' as [_ <-]. auto.
+  Qed.
 End Run.
 
 (* ---- global statements -------------------------------------------------------------- *)
